@@ -33,12 +33,25 @@ Theorem C17_operation_preserves_legality : forall hr c o w r w',
 Proof. exact run_op_legal. Qed.
 Print Assumptions C17_operation_preserves_legality.
 
-(* Accept headers and close reasons are only ever sent to servers that support them
-   (spec 2.1+ / 2.3+); holds for the code as found and as repaired. *)
-Theorem C17_features_only_if_supported : forall f hr c connect_ok mw rt cl fl rs e w,
-  session f hr c connect_ok mw rt cl fl = (rs, e, w) -> features_ok c (trace w) = true.
-Proof. exact features_session. Qed.
-Print Assumptions C17_features_only_if_supported.
+(* Every send() call carries a well-formed event: accept headers and close reasons only for
+   servers that support them (spec 2.1+ / 2.3+); 'text' is a str and 'bytes' is EXACTLY bytes
+   -- a copy: whatever the application passed (bytes, a bytes subclass, bytearray, memoryview)
+   and whatever the binary media handler returned, the event never aliases a buffer the
+   application can still change (kind KMutated = "content differs between the call of send()
+   and the moment the server reads it" is never produced). *)
+Theorem C17_events_well_formed : forall hr c connect_ok mw rt cl fl rs e w,
+  session true hr c connect_ok mw rt cl fl = (rs, e, w) -> features_ok c (trace w) = true.
+Proof. intros. eapply (features_session true); eauto. left. reflexivity. Qed.
+Print Assumptions C17_events_well_formed.
+
+(* The code as found: send_media puts the handler's bytearray / memoryview into the event
+   (corpus/C17/send_media_bytearray.json; fixes/C17-send-media-bytes.patch). *)
+Theorem C17_send_media_refuted_before_fix :
+  exists hr c mw rt cl fl,
+    (let '(rs, e, w) := session false hr c true mw rt cl fl in features_ok c (trace w) = false)
+    /\ (let '(rs, e, w) := session true hr c true mw rt cl fl in features_ok c (trace w) = true).
+Proof. exact send_media_refuted_before_fix. Qed.
+Print Assumptions C17_send_media_refuted_before_fix.
 
 (* (state, operation) -> documented error: all operations, all arguments, all well-formed
    states, no exception: in particular a receive never fails an internal assertion. *)
@@ -193,18 +206,18 @@ Print Assumptions C17_constants.
 (* Non-vacuity: a session with accept, a send, two receives (message, then the disconnect
    behind it), with a send failure in between; the hypotheses of the theorems hold. *)
 Example C17_session_example :
-  let c := mkCfg true true 2 1011 in
-  let sc := [(OAccept (SubStr 1) HGood, false); (OSendText (PGood 7), true); (OAdvance, false);
-             (ORecvText, false); (OSendText (PGood 8), true); (ORecvText, true)] in
+  let c := mkCfg true true 2 1011 KExact in
+  let sc := [(OAccept (SubStr 1) HGood, false); (OSendText (PGood 7 KSub), true); (OAdvance, false);
+             (ORecvText, false); (OSendText (PGood 8 KExact), true); (ORecvText, true)] in
   let '(rs, e, w) := session true (fun _ => true) c true [] (Routed sc) [CText 5; CDisc (Some 1001)] [SOk; SOther] in
   script_ok sc /\ e = Returned
   /\ rs = [Ret VNone; Raise XOther; Ret VNone; Ret (VText 5); Raise (XDisc 1001); Raise (XDisc 1001)]
-  /\ closes w = [EAccept (Some 1%N) true; EText 7%N]
+  /\ closes w = [EAccept (Some 1%N) true; EText 7%N KSub]
   /\ handed w = true.
 Proof. vm_compute. repeat split; repeat constructor. Qed.
 
-Example C17_legal_nonvacuous : Legal (mkCfg true true 2 1011) (ws0 [CText 1%N] [SOk]) /\ wf (ws0 [] [])
-  /\ receiver_has (mkCfg true true 0 1011) (ws0 [] []).
+Example C17_legal_nonvacuous : Legal (mkCfg true true 2 1011 KExact) (ws0 [CText 1%N] [SOk]) /\ wf (ws0 [] [])
+  /\ receiver_has (mkCfg true true 0 1011 KExact) (ws0 [] []).
 Proof.
   split; [apply legal_init|]. split; [intros _; reflexivity|]. right. left. reflexivity.
 Qed.
